@@ -1,3 +1,4 @@
+import Vet.Props.C04Keep
 import Vet.Props.C04
 #print axioms Vet.C04_exemption_conflict
 #print axioms Vet.C04_audit_conflict
@@ -5,3 +6,4 @@ import Vet.Props.C04
 #print axioms Vet.C04_counterexample_wildcard
 #print axioms Vet.C04_counterexample_trusted
 #print axioms Vet.C04_counterexample_unpublished
+#print axioms Vet.C04_update_keeps_violations
